@@ -356,6 +356,107 @@ theorem execL_append (gh : Bool) (l1 l2 : List Stmt) (st : St) :
     execB cfg gh (Block.ofList (l1 ++ l2)) st = execB cfg gh (Block.ofList l2) (execB cfg gh (Block.ofList l1) st) := by
   rw [ofList_append, execB_append]
 
+/-! ### the cloned chain is always closed (the two conjuncts of `loopSide` about the chain follow from SSA order) -/
+
+theorem closedChain_append (predefs : List Var) (iv : Var) : ∀ (l1 l2 : List Stmt) (K : List Var),
+    closedChain predefs iv (l1 ++ l2) K
+      = (closedChain predefs iv l1 K && closedChain predefs iv l2 ((l1.flatMap pureDef).reverse ++ K))
+  | [], l2, K => by simp [closedChain]
+  | s :: r, l2, K => by
+      cases s
+      case pure d op args =>
+        simp only [List.cons_append, closedChain, closedChain_append predefs iv r l2 (d :: K), List.flatMap_cons, pureDef,
+          List.reverse_append, List.reverse_cons, List.reverse_nil, List.nil_append, List.append_assoc, List.singleton_append,
+          Bool.and_assoc]
+      all_goals
+        simp only [List.cons_append, closedChain, closedChain_append predefs iv r l2 K, List.flatMap_cons, pureDef,
+          List.nil_append]
+
+/-- closedness only depends on the set of mapped variables -/
+theorem closedChain_congr (predefs : List Var) (iv : Var) : ∀ (l : List Stmt) (K K' : List Var), (∀ x, x ∈ K ↔ x ∈ K') →
+    closedChain predefs iv l K = closedChain predefs iv l K'
+  | [], _, _, _ => rfl
+  | s :: r, K, K', h => by
+      have hc : ∀ y, K.contains y = K'.contains y := fun y => by
+        rw [Bool.eq_iff_iff]; simp only [List.contains_eq_mem, decide_eq_true_eq]; exact h y
+      cases s
+      case pure d op args =>
+        simp only [closedChain]
+        rw [closedChain_congr predefs iv r (d :: K) (d :: K') (fun x => by simp only [List.mem_cons, h x])]
+        have hf : (fun y => K.contains y || (!predefs.contains y && y != iv))
+            = (fun y => K'.contains y || (!predefs.contains y && y != iv)) := by
+          funext y; rw [hc y]
+        rw [hf]
+      all_goals
+        simp only [closedChain]; exact closedChain_congr predefs iv r K K' h
+
+/-- in an SSA-ordered list, an operand of a statement that the list defines is defined by an earlier statement -/
+theorem ssa_arg_defined_before : ∀ (A : List Stmt) (s : Stmt) (B : List Stmt), pureSSA (A ++ s :: B) = true →
+    ∀ y ∈ pureArgs s, y ∈ (A ++ s :: B).flatMap pureDef → y ∈ A.flatMap pureDef
+  | [], s, B, h, y, hy, hd => by
+      simp only [List.nil_append, pureSSA, Bool.and_eq_true, List.all_eq_true, Bool.not_eq_true', List.contains_eq_mem,
+        decide_eq_false_iff_not, List.mem_append] at h
+      simp only [List.nil_append, List.flatMap_cons, List.mem_append] at hd
+      rcases hd with hd | hd
+      · exact absurd hd (h.1.2 y hy)
+      · exact absurd hd (h.1.1 y (Or.inr hy))
+  | a :: A, s, B, h, y, hy, hd => by
+      simp only [List.cons_append, pureSSA, Bool.and_eq_true] at h
+      simp only [List.cons_append, List.flatMap_cons, List.mem_append] at hd ⊢
+      rcases hd with hd | hd
+      · exact Or.inl hd
+      · exact Or.inr (ssa_arg_defined_before A s B h.2 y hy hd)
+
+/-- the chain computed by `inputChain` on a prefix (given reversed, `R`) of an SSA-ordered list: it is closed, and it defines
+every needed variable that the prefix defines -/
+theorem inputChain_closed (pre : List Stmt) (iv : Var) (hssa : pureSSA pre = true) :
+    ∀ (R B : List Stmt), pre = R.reverse ++ B → ∀ (need : List Var) (K : List Var), iv ∈ K →
+      closedChain (pre.flatMap pureDef) iv (inputChain R need) K = true ∧
+      (∀ x ∈ need, x ∈ R.reverse.flatMap pureDef → x ∈ (inputChain R need).flatMap pureDef)
+  | [], _, _, need, K, _ => by simp [inputChain, closedChain]
+  | s :: R, B, hpre, need, K, hK => by
+      have hpre' : pre = R.reverse ++ s :: B := by rw [hpre]; simp
+      cases s
+      case pure d op args =>
+        simp only [inputChain]
+        split
+        · next hneed =>
+          obtain ⟨ihc, ihcov⟩ := inputChain_closed pre iv hssa R (Stmt.pure d op args :: B) hpre' (need ++ args) K hK
+          refine ⟨?_, ?_⟩
+          · rw [closedChain_append, ihc, Bool.true_and]
+            simp only [closedChain, Bool.and_true, List.all_eq_true, Bool.or_eq_true, List.contains_eq_mem, decide_eq_true_eq,
+              Bool.and_eq_true, Bool.not_eq_true', decide_eq_false_iff_not, bne_iff_ne, ne_eq, List.mem_append, List.mem_reverse]
+            intro y hy
+            by_cases hyiv : y = iv
+            · exact Or.inl (Or.inr (hyiv ▸ hK))
+            by_cases hyp : y ∈ pre.flatMap pureDef
+            · have hbefore := ssa_arg_defined_before R.reverse (Stmt.pure d op args) B (hpre' ▸ hssa) y
+                (by simpa [pureArgs] using hy) (hpre' ▸ hyp)
+              exact Or.inl (Or.inl (ihcov y (List.mem_append_right _ hy) hbefore))
+            · exact Or.inr ⟨hyp, hyiv⟩
+          · intro x hx hxd
+            simp only [List.reverse_cons, List.flatMap_append, List.flatMap_cons, List.flatMap_nil, pureDef, List.mem_append,
+              List.mem_singleton, List.append_nil] at hxd ⊢
+            rcases hxd with hxd | hxd
+            · exact Or.inl (ihcov x (List.mem_append_left _ hx) hxd)
+            · exact Or.inr hxd
+        · next hneed =>
+          obtain ⟨ihc, ihcov⟩ := inputChain_closed pre iv hssa R (Stmt.pure d op args :: B) hpre' need K hK
+          refine ⟨ihc, ?_⟩
+          intro x hx hxd
+          simp only [List.reverse_cons, List.flatMap_append, List.flatMap_cons, List.flatMap_nil, pureDef, List.mem_append,
+            List.mem_singleton, List.append_nil] at hxd
+          rcases hxd with hxd | hxd
+          · exact ihcov x hx hxd
+          · exact absurd (by simpa [hxd] using hx) hneed
+      all_goals
+        simp only [inputChain]
+        obtain ⟨ihc, ihcov⟩ := inputChain_closed pre iv hssa R (_ :: B) hpre' need K hK
+        refine ⟨ihc, ?_⟩
+        intro x hx hxd
+        simp only [List.reverse_cons, List.flatMap_append, List.flatMap_cons, List.flatMap_nil, pureDef, List.append_nil] at hxd
+        exact ihcov x hx hxd
+
 /-- the side conditions of the rotation, unpacked -/
 structure RotSide (fs : List (Field × Var)) (pre after : List Stmt) (lb ub st iv : Var) (fresh : Nat) : Prop where
   hpure : pre.all isPure = true
@@ -374,16 +475,16 @@ theorem loopSide_unpack {a : AccId} {fs : List (Field × Var)} {pre after : List
     (h : loopSide a fs pre after lb ub st iv fresh = true) : RotSide fs pre after lb ub st iv fresh := by
   simp only [loopSide, Bool.and_eq_true, Bool.not_eq_true', List.contains_eq_mem, decide_eq_false_iff_not,
     decide_eq_true_eq, bne_iff_ne, ne_eq] at h
-  obtain ⟨⟨⟨⟨⟨⟨⟨⟨⟨h1, h2⟩, h3⟩, h4⟩, h5⟩, h6⟩, h7⟩, h8⟩, h9⟩, h10⟩ := h
-  refine ⟨h1, h2, h3, h4, h5, ?_, h7, h8, h9, ?_⟩
+  obtain ⟨⟨⟨⟨⟨⟨⟨h1, h2⟩, h3⟩, h4⟩, h7⟩, h8⟩, h9⟩, h10⟩ := h
+  have hc := inputChain_closed pre iv h2 pre.reverse [] (by simp) (fs.map (·.2)) [iv] (by simp)
+  refine ⟨h1, h2, h3, h4, hc.1, ?_, h7, h8, h9, ?_⟩
   · intro x hx
-    have := (List.all_eq_true.mp h6) x hx
-    simp only [Bool.or_eq_true, List.contains_eq_mem, decide_eq_true_eq, Bool.not_eq_true', decide_eq_false_iff_not] at this
-    exact this
+    by_cases hp : x ∈ pre.flatMap pureDef
+    · exact Or.inl (List.mem_cons_of_mem _ (hc.2 x hx (by simpa using hp)))
+    · exact Or.inr hp
   · intro x hx
     have := (List.all_eq_true.mp h10) x hx
     simpa using this
-
 
 theorem mem_readsB_ofList : ∀ (l : List Stmt) (s : Stmt) (y : Var), s ∈ l → y ∈ readsS s → y ∈ readsB (Block.ofList l)
   | [], _, _, h, _ => by cases h
@@ -871,5 +972,6 @@ theorem insert_setup_trace_taint (path : List Nat) (a : AccId) (fs : List (Field
     rewriteB_exec cfg (insert_ghost_ok cfg a fs) b path noFacts bg hg hwf hn st
       (by intro a f x h; simp [noFacts] at h) (by intro a f x h; simp [noFacts] at h)
   rw [← noGhostB_exec cfg b' hng st, heq st, ghost_writes_unobservable_taint cfg bg hok st, h1]
+
 
 end SnaxVerif.Accfg
